@@ -10,6 +10,18 @@ def run(ctx):
     # ---- spec: intended design holds, the named deviation is refuted
     txt, _ = common.tlc(ctx, "ZnIso", "MC_ZnIso_seq.cfg", workers=4, timeout=300)
     seqs = common.vectors(txt, "iso")
+    # ---- static binding: the package-level variables of the code = the classified table of the spec
+    gtab = common.vectors(txt, "globals")
+    if not gtab:
+        raise common.NoVerdict("ZnIso did not emit its GLOBALS table")
+    modelled = sorted("%s:%s" % (g["g"], g["type"]) for g in gtab[0]["t"])
+    mr = common.build_harness(ctx, "maprange")
+    pr = subprocess.run([mr, common.REPO, "globals"], capture_output=True, text=True, env=common.go_env())
+    if pr.returncode != 0:
+        raise common.NoVerdict("globals inventory failed (the tree must type-check with -tags verif): " + pr.stderr[-1500:])
+    inventory = sorted("%s.%s:%s" % (e["pkg"], e["name"], e["type"]) for e in map(json.loads, pr.stdout.splitlines()))
+    unmodelled_globals = [g for g in inventory if g not in modelled]
+    stale_globals = [g for g in modelled if g not in inventory]
     ctxt, _ = common.tlc(ctx, "ZnIso", "MC_ZnIso_conc.cfg", workers=2, timeout=300)
     scheds = common.vectors(ctxt, "sched")
     c3txt, _ = common.tlc(ctx, "ZnIso", "MC_ZnIso_conc3.cfg", workers=2, timeout=300)
@@ -95,9 +107,13 @@ def run(ctx):
                     "library type's constructor, mutate a library type's dictionary default through an instance, write into the headers a response constructor supplied, fail three calls "
                     "deep, declare names/methods/types, import libraries, run a FILE that imports a custom module file), each on ONE interpreter "
                     "object and on separate ones, each in a fresh process, followed by a probe that observes every cell: the observation must equal the probe's in a "
-                    "pristine process. concurrent: all 6 interleavings of bind-source/read-source of 2 requests (x%d) and %d of the 90 of 3 requests through one "
+                    "pristine process. static: the go/types inventory of package-level variables must equal the classified GLOBALS table of the spec. concurrent: all 6 interleavings of bind-source/read-source of 2 requests (x%d) and %d of the 90 of 3 requests through one "
                     "ZnPlaygroundHandler, the order enforced by the H4 gates: every request must be answered with its own program's result. TLC checks Isolation / "
                     "OwnProgram on the intended design and refutes both on the named deviation 'ascoded' in the same run. race detector: %s" % (reps, 30 if quick else 90, race),
                race_detector=race)
+    cov.update(globals_in_code=len(inventory), globals_modelled=len(modelled), unmodelled_globals=unmodelled_globals, stale_globals=stale_globals)
+    if unmodelled_globals or stale_globals:
+        # not a verdict by itself (the dynamic sequences above are): recorded, so that the new / re-typed variable gets classified
+        ctx.notes.append("package-level variables differ from spec/ZnIso.tla GLOBALS (classify them): unmodelled=%s stale=%s" % (unmodelled_globals, stale_globals))
     return cov, ["data-race freedom is checked with the Go race detector (thorough tier), not model-checked (DESIGN section 6)",
                  "the library type is the harness-side library exporting pkg/common's HTTP classes (stdlib/http does not compile)"]
